@@ -151,7 +151,16 @@ def single_path(repo, rep, T):
                 # integrate dir without a 1-D guard: evidence note (1-D input fails inside xarray instead of ValueError)
                 rep.note(f"observation: SpecArray.{name} integrates '{D}' without a 1-D ValueError guard")
                 continue
-            if guard and guard[0].lineno < first_use:
+            # order by statement position (inlined helper bodies share one line number)
+            body_ = fi.node.body
+            def _pos(node_):
+                for i_, st_ in enumerate(body_):
+                    if any(x_ is node_ for x_ in ast.walk(st_)):
+                        return i_
+                return 10**9
+            uses_ = [n for n in sums_dir] + [n for n in ast.walk(fi.node) if isinstance(n, ast.Attribute) and unparse(n) == "self.dir" and id(n) not in gtests]
+            first_pos = min([_pos(n) for n in uses_] or [10**9])
+            if guard and body_.index(guard[0]) < first_pos:
                 exc = [x for x in guard[0].body if isinstance(x, ast.Raise)][0].exc
                 nm = unparse(exc.func) if isinstance(exc, ast.Call) else unparse(exc)
                 if nm == "ValueError":
